@@ -72,7 +72,7 @@ class NumberType(Type):
         """ Convert units of this type
         """
         if unit:
-            if self.unit and self.unit!=unit:
+            if self.unit and self.unit!=unit and self.value is not None:
                 # arrays are converted element-wise
                 value = self.value if isinstance(self.value, (list, np.ndarray)) else float(self.value)
                 if env is None:
